@@ -139,6 +139,12 @@ func C19(run *report.Run) {
 		specNames = []string{"S0", "S1", "S2"}
 	}
 	events := c19Events(specNames)
+	// the banner flag: the same events without the DO NOT EDIT header (files are goag's either way)
+	for _, e := range c19Events([]string{"S0", "S1"}) {
+		e.Name += "/dne=0"
+		e.NoDNE = true
+		events = append(events, e)
+	}
 	// fresh(e): each event run once into an empty directory
 	fresh := map[string]genrun.Tree{}
 	{
@@ -217,7 +223,7 @@ func C19(run *report.Run) {
 			}
 		}
 	}
-	for _, in := range []string{"userfiles", "staleowned"} {
+	for _, in := range []string{"empty", "userfiles", "staleowned"} {
 		for _, a := range events {
 			add(in, []genrun.Step{a})
 			for _, b := range events {
@@ -397,7 +403,7 @@ func c19CLI(run *report.Run, env *Env, events []genrun.Step, fresh map[string]ge
 		specFile := filepath.Join(env.Scratch, "cli", fmt.Sprintf("spec%d.yaml", i))
 		os.WriteFile(specFile, e.Spec, 0o644)
 		c := exec.Command(bin, "-file", specFile, "-out", dir, "-package", "gen", "-config", filepath.Join(env.Scratch, "none.yaml"),
-			fmt.Sprintf("-client=%v", e.Client), fmt.Sprintf("-api-handler=%v", !e.NoAPI), "-spec-handler-name", "openapi.yaml")
+			fmt.Sprintf("-client=%v", e.Client), fmt.Sprintf("-api-handler=%v", !e.NoAPI), fmt.Sprintf("-donotedit=%v", !e.NoDNE), "-spec-handler-name", "openapi.yaml")
 		out, err := c.CombinedOutput()
 		if err != nil {
 			internal("cli failed on %s: %v: %s", e.Name, err, out)
